@@ -20,8 +20,11 @@ func ZZ_C14_import_copies() {
 	}
 	env.Packages["zzpkg"] = table
 	env.PackageTypes["zzpkg"] = map[string]reflect.Type{"T": reflect.TypeOf(int64(0))}
+	before := ""
 	if zz.Symbolic() {
 		zz.FreezeGlobals()
+	} else {
+		before = zz.GlobalsDump()
 	}
 	e1, e2 := env.NewEnv(), env.NewEnv()
 	imp := &ast.ImportExpr{Name: zzLit("zzpkg")}
@@ -56,6 +59,15 @@ func ZZ_C14_import_copies() {
 	ci, _ := c.(int64)
 	zz.Assert(cerr == nil && ci == v, "C14.F3.second-import-of-same-environment-unaffected")
 	zz.Assert(len(env.Packages["zzpkg"]) == n && env.Packages["zzpkg"]["A"].Int() == v, "C14.F3.package-table-unmodified")
+	// Set reaches the nearest binding wherever it lives: that must still be the importer's own copy;
+	// so must a member assignment on the import expression itself (`import("zzpkg").A = w`)
+	w2 := zz.Int64()
+	zz.Assert(m2.Set("A", w2) == nil, "C14.F3.set-on-imported-scope")
+	_, lerr := zzExec(e2, &ast.LetsStmt{LHSS: []ast.Expr{&ast.MemberExpr{Expr: imp, Name: "A"}}, RHSS: []ast.Expr{zzLit(w2)}})
+	zz.Assert(lerr == nil, "C14.F3.member-assignment-on-import-expression")
+	c3, c3err := m3.Get("A")
+	c3i, _ := c3.(int64)
+	zz.Assert(c3err == nil && c3i == v, "C14.F3.second-import-of-same-environment-unaffected")
 	// a later import still sees the original table
 	r4, _ := zzEval(env.NewEnv(), imp)
 	if m4, ok := r4.Interface().(*env.Env); ok {
@@ -70,5 +82,8 @@ func ZZ_C14_import_copies() {
 	}
 	if zz.Symbolic() {
 		zz.Assertf(zz.Events("frozen-write") == 0, "C14.F3.no-write-to-process-wide-tables", zz.EventText("frozen-write"))
+	} else {
+		// native oracle: the package-level variables the engine named (registered by the replay overlay)
+		zz.Assert(zz.GlobalsDump() == before, "C14.F3.no-write-to-process-wide-tables")
 	}
 }
